@@ -74,6 +74,6 @@ PROPS = {
 # C14 also runs the staking model inside the wasm engine: staking / distribution messages sent by users and emitted
 # by contracts inside message trees (rolled back with failing parents), slashes and block advances; predicate: an
 # operation that fails changes nothing (raw storage hash), as "… fails without effect" demands
-PROPS["C14"]["slices"].append({"name": "wasm-stk", "quick": 2000, "thorough": 40000, "predicate": "pred_c01", "nontrivial": "nt_any"})
+PROPS["C14"]["slices"].append({"name": "wasm-stk", "quick": 2000, "thorough": 40000, "predicate": "pred_c14_wasm", "nontrivial": "nt_any"})
 PROPS["C14"]["rule"] += ("; slice wasm-stk: message trees on an App with staking set up in which users and contracts delegate / undelegate / redelegate / "
                          "withdraw / set withdraw addresses, with slashes and non-decreasing whole-second block changes")
